@@ -211,9 +211,11 @@ func (e *engine) structuralOne(v *value, jv gojq.JQValue) {
 		} else {
 			bad("JQValueEach", jv.JQValueEach(), "[]PathValue")
 		}
-		if _, ok := w["nosuch"]; !ok {
-			eq("JQValueHas(absent)", jv.JQValueHas("nosuch"), false)
-			eq("JQValueKey(absent)", jv.JQValueKey("nosuch"), nil)
+		for _, absent := range []string{"nosuch", "placeholder"} {
+			if _, ok := w[absent]; !ok {
+				eq("JQValueHas(absent)", jv.JQValueHas(absent), false)
+				eq("JQValueKey(absent)", jv.JQValueKey(absent), nil)
+			}
 		}
 		mustErr("JQValueHas(int)", jv.JQValueHas(0))
 		mustErr("JQValueToNumber", jv.JQValueToNumber())
